@@ -264,12 +264,14 @@ def _ck(name, unwind=8, cost=30, entry=None, **kw):
                label="bounded", **kw)
 
 C15 = [
-    _ck("hwloc_internal_cpukinds_register.n%d" % n, cost=60, timeout=1500, entry="hp_hwloc_internal_cpukinds_register",
-        defines={"FIXED_NR": n, "REG_ALLOC": 0 if n == 0 else 8},
-        note="partition invariant (non-empty, pairwise disjoint, union = old union + new set, <= 2N+1 kinds, array bounds) with %d existing kinds over an 8-PU universe (one PU per Venn region), every new cpuset / efficiency / flag word; empty cpuset and unknown flags => EINVAL; loops unwound 8 times" % n)
+    _ck("hwloc_internal_cpukinds_register.n%d" % n, unwind=9, cost=90, timeout=1500, entry="hp_hwloc_internal_cpukinds_register",
+        defines={"FIXED_NR": n, "REG_ALLOC": 0 if n == 0 else 8, "CK_NO_INFOS": None},
+        note="partition invariant (non-empty, pairwise disjoint, union = old union + new set, <= 2N+1 kinds, array bounds) and the representation invariant of the kinds array (unused slots carry no infos) with %d existing kinds over an 8-PU universe (one PU per Venn region), every new cpuset / efficiency / flag word; empty cpuset and unknown flags => EINVAL; empty info lists; loops unwound 9 times" % n)
     for n in (0, 1, 2, 3)
 ] + [
-    _ck("hwloc_cpukinds_get_by_cpuset", note="index of the containing kind, EXDEV iff straddling/partially covered, ENOENT iff disjoint from all kinds, EINVAL for flags/NULL/empty; <= 3 kinds, 8-PU universe"),
+    _ck("hwloc_cpukinds_get_by_cpuset", unwind=9, note="index of the containing kind, EXDEV iff straddling/partially covered, ENOENT iff disjoint from all kinds, EINVAL for flags/NULL/empty; <= 3 kinds, 8-PU universe"),
+    _ck("hwloc_internal_cpukinds_restrict", unwind=9, cost=80, timeout=1500, defines={"REG_ALLOC": 8, "INFOCAP": 4}, remove_bodies=["hwloc_internal_cpukinds_rank"],
+        note="restrict: every kind intersected with the topology cpuset, emptied kinds removed and their cpuset released, survivors keep order / cpuset object / infos, partition invariant, and the representation invariant register() relies on (the slot vacated at the end of the array carries no stale infos); <= 3 kinds with <= 2 info pairs each, 8-PU universe, every root cpuset; the ranking that follows a removal is cut out (it only writes efficiencies: assumed)"),
 ]
 PROPS["C15"] = C15
 
